@@ -79,6 +79,10 @@ type round struct {
 	opsD     int
 	nC       int // family writers: Update(parent) then writes below it, in one cached transaction
 	opsC     int
+	nF       int           // scenario writers: scripted snapshot / read-transaction scenarios on routes they own (see writerF)
+	opsF     int
+	waitF    time.Duration // how long a second writer is watched while the first write transaction is still open
+	scripted bool          // scenario kinds are taken in turn instead of drawn
 	nR       int
 	procs    int
 	opsA     int
@@ -88,13 +92,22 @@ type round struct {
 	seed     uint64
 	bad      atomic.Bool
 	badMsg   atomic.Value
+	lockBroken atomic.Bool // a scenario established that the writer mutex no longer serialises write transactions
+	msgMu    sync.Mutex
+	msgs     []string // the first few failures of the round, for the replay
 }
 
 func (r *round) G() int { return r.K + 2 }
 
 func (r *round) fail(format string, a ...any) {
 	r.bad.Store(true)
-	r.badMsg.CompareAndSwap(nil, fmt.Sprintf(format, a...))
+	msg := fmt.Sprintf(format, a...)
+	r.badMsg.CompareAndSwap(nil, msg)
+	r.msgMu.Lock()
+	if len(r.msgs) < 6 {
+		r.msgs = append(r.msgs, msg)
+	}
+	r.msgMu.Unlock()
 }
 
 const (
@@ -264,6 +277,19 @@ func (r *round) nestedLookup(c fox.Context) {
 	echoParams(c)
 }
 
+// scenario family i (owner: scenario writer i): /q/i/a and /q/i/b are written TOGETHER by every transaction of the
+// scenario writer (objects 2000+100i+{0,1}); /q/i/c is written only by its SECOND writer (object 3000+100i);
+// /q/i/t exists exactly when the version of a and b is odd (so every commit changes the number of routes).
+var qSuffix = [4]string{"a", "b", "c", "t"}
+
+func qpath(i, j int) string { return "/q/" + strconv.Itoa(i) + "/" + qSuffix[j] }
+func qobj(i, j int) int {
+	if j == 2 {
+		return 3000 + 100*i
+	}
+	return 2000 + 100*i + j
+}
+
 func dpath(j int) string { return "/d/" + strconv.Itoa(j) }
 func xpath(j uint64) string { return "/x/" + strconv.FormatUint(j%3, 10) }
 func spat(i int) string  { return "/s/" + strconv.Itoa(i) + "/{id}" }
@@ -306,6 +332,11 @@ func (r *round) setup() {
 	}
 	for i := 0; i < r.nE; i++ {
 		must(f.Handle(verbName(i, 0), mpath(i), handler(0), ann(0)))
+	}
+	for i := 0; i < r.nF; i++ {
+		for j := 0; j < 3; j++ {
+			must(f.Handle("GET", qpath(i, j), handler(0), ann(0)))
+		}
 	}
 }
 
@@ -716,6 +747,451 @@ func (r *round) writerD(tid int, rnd *hx.Rand, out *[]rec) {
 	}
 }
 
+// ---------- scenario writer: scripted snapshot / read-transaction scenarios inside the concurrent round ----------
+//
+// Scenario writer i owns /q/i/a, /q/i/b (written together: one version) and /q/i/t; its SECOND writer owns /q/i/c.
+// Because it owns them, it knows the exact version every tree must show; expectations come from that bookkeeping,
+// never from the router. Two scenarios, taken in turn:
+//
+//   snapshot-of-a-write-transaction: Txn(true) / Updates; write a; Snapshot() — every read entry point of the
+//     snapshot must show the captured UNCOMMITTED write, a write through it must answer ErrReadOnlyTxn; finalise the
+//     snapshot (Abort / Commit / both / not at all) while the parent is still OPEN; then (b) a read of the published
+//     state must show none of the parent's writes, (a) a second writer started now must NOT complete before the parent
+//     ends (watched for waitF), the parent writes b and ends (Commit / Abort), the second writer completes, and
+//     (c) a last read must show every committed write of both writers (no lost update). All of it is recorded as
+//     ordinary operations of three threads (parent, second writer, reader) in the round's history.
+//
+//   read-transaction-across-a-commit: View / Txn(false) (/ its Snapshot()); every entry point answers; a transaction
+//     of this writer COMMITS the next version (same or another goroutine); every entry point of the still open read
+//     transaction answers again. The protocol's reader performs ONE load: the whole read transaction is ONE read of
+//     the history whose result lists every answer (single_load_ok, atomic_ok), and each answer must be the version the
+//     transaction started on; Len and Has(/q/i/t) must not move either.
+type view struct {
+	entry string
+	j     int
+	v     uint64
+	found bool
+}
+
+const scenarioFile = "c05_current_scenario.txt"
+
+// what EVERY read entry point of one transaction answers about /q/i/a and /q/i/b (read transactions and snapshots
+// only: Iter() on a write transaction would reset its copy-on-write cache)
+func txnViews(txn *fox.Txn, i int, rw fox.ResponseWriter) (vs []view, length int, toggle bool) {
+	for j := 0; j < 2; j++ {
+		p := qpath(i, j)
+		add := func(entry string, rte *fox.Route) {
+			v, ok := verOf(rte)
+			vs = append(vs, view{entry, j, v, ok && rte.Pattern() == p})
+		}
+		if !txn.Has("GET", p) {
+			vs = append(vs, view{"Has", j, 0, false})
+		}
+		add("Route", txn.Route("GET", p))
+		rte, _ := txn.Reverse("GET", "", p)
+		add("Reverse", rte)
+		rte, cc, _ := txn.Lookup(rw, httptest.NewRequest("GET", p, nil))
+		add("Lookup", rte)
+		if cc != nil {
+			cc.Close()
+		}
+		it := txn.Iter()
+		for _, sq := range []struct {
+			name string
+			seq  func(func(string, *fox.Route) bool)
+		}{
+			{"Iter.All", it.All()},
+			{"Iter.Reverse", it.Reverse(it.Methods(), "", p)},
+			{"Iter.Routes", it.Routes(it.Methods(), p)},
+			{"Iter.Prefix", it.Prefix(it.Methods(), "/q/"+strconv.Itoa(i)+"/")},
+		} {
+			n := 0
+			sq.seq(func(m string, rte *fox.Route) bool {
+				if m == "GET" && rte.Pattern() == p {
+					n++
+					add(sq.name, rte)
+				}
+				return true
+			})
+			if n == 0 {
+				vs = append(vs, view{sq.name, j, 0, false})
+			}
+		}
+	}
+	return vs, txn.Len(), txn.Has("GET", qpath(i, 3))
+}
+
+type fscen struct {
+	r                 *round
+	i                 int
+	tid, tidW2, tidRd int
+	out, outW2, outRd *[]rec
+	rnd               *hx.Rand
+	rw                fox.ResponseWriter
+	ver, cv           uint64 // committed version of a and b; of c
+	script            []string
+	failed            bool
+}
+
+func (s *fscen) step(format string, a ...any) { s.script = append(s.script, fmt.Sprintf(format, a...)) }
+
+func (s *fscen) fail(format string, a ...any) {
+	msg := fmt.Sprintf("scenario [%s] => %s", strings.Join(s.script, "; "), fmt.Sprintf(format, a...))
+	if !s.failed {
+		fmt.Fprintln(os.Stderr, "c05: FAILURE "+msg) // a later fatal runtime error cannot take this away
+	}
+	s.failed = true
+	s.r.fail("%s", msg)
+}
+
+// compares the answers with what this writer itself wrote; returns them as observations for the history
+func (s *fscen) judge(what string, vs []view, want [2]uint64, why string) []ov {
+	var out []ov
+	for _, x := range vs {
+		if !x.found {
+			s.fail("%s: %s(GET %s) found nothing", what, x.entry, qpath(s.i, x.j))
+			continue
+		}
+		if x.v != want[x.j] {
+			s.fail("%s: %s(GET %s) answered version %d, not version %d (%s)", what, x.entry, qpath(s.i, x.j), x.v, want[x.j], why)
+		}
+		out = append(out, ov{qobj(s.i, x.j), x.v})
+	}
+	return out
+}
+
+// one read of the PUBLISHED state by the scenario's reader thread, through a different entry point per route;
+// wantC < 0: the second writer is in flight, the version of c is not determined
+func (s *fscen) publishedRead(what string, wantAB uint64, wantC int64, why string) {
+	r := s.r
+	e := rec{tid: s.tidRd, kind: 'R', what: what}
+	e.call = clock.Add(1)
+	for j := 0; j < 3; j++ {
+		p := qpath(s.i, j)
+		var rte *fox.Route
+		entry := ""
+		var v uint64
+		found := false
+		switch s.rnd.Intn(4) {
+		case 0:
+			entry = "Router.Route"
+			rte = r.f.Route("GET", p)
+			v, found = verOf(rte)
+		case 1:
+			entry = "Router.Reverse"
+			rte, _ = r.f.Reverse("GET", "", p)
+			v, found = verOf(rte)
+		case 2:
+			entry = "Router.Lookup"
+			var cc fox.ContextCloser
+			rte, cc, _ = r.f.Lookup(s.rw, httptest.NewRequest("GET", p, nil))
+			v, found = verOf(rte)
+			if cc != nil {
+				cc.Close()
+			}
+		default:
+			entry = "ServeHTTP"
+			w := httptest.NewRecorder()
+			r.f.ServeHTTP(w, httptest.NewRequest("GET", p, nil))
+			if w.Code == 200 {
+				v, _ = strconv.ParseUint(w.Header().Get("X-V"), 10, 64)
+				found = true
+			}
+		}
+		if !found {
+			s.fail("%s: %s GET %s found nothing", what, entry, p)
+			continue
+		}
+		e.vs = append(e.vs, r.seen(qobj(s.i, j), v, what))
+		switch {
+		case j < 2 && v != wantAB:
+			s.fail("%s: %s GET %s shows version %d, not version %d (%s)", what, entry, p, v, wantAB, why)
+		case j == 2 && wantC >= 0 && v != uint64(wantC):
+			s.fail("%s: %s GET %s shows version %d, not version %d: the second writer's committed write is not what the published tree shows (lost update)", what, entry, p, v, wantC)
+		}
+	}
+	e.ret = clock.Add(1)
+	*s.outRd = append(*s.outRd, e)
+}
+
+// the ordinary committed transaction of the scenario writer: a and b to the next version, /q/i/t toggled
+func (s *fscen) commitAB() {
+	r := s.r
+	nv := s.ver + 1
+	e := rec{tid: s.tid, kind: 'W', what: "scenario writer commit"}
+	ok := true
+	body := func(txn *fox.Txn) {
+		chk := func(_ *fox.Route, err error) { ok = ok && err == nil }
+		if s.rnd.Bool() {
+			chk(txn.Update("GET", qpath(s.i, 0), handler(nv), ann(nv)))
+		} else {
+			chk(txn.Delete("GET", qpath(s.i, 0)))
+			chk(txn.Handle("GET", qpath(s.i, 0), handler(nv), ann(nv)))
+		}
+		chk(txn.Update("GET", qpath(s.i, 1), handler(nv), ann(nv)))
+		if nv%2 == 1 {
+			chk(txn.Handle("GET", qpath(s.i, 3), handler(nv), ann(nv)))
+		} else {
+			chk(txn.Delete("GET", qpath(s.i, 3)))
+		}
+	}
+	e.call = clock.Add(1)
+	if s.rnd.Bool() {
+		txn := r.f.Txn(true)
+		body(txn)
+		txn.Commit()
+	} else if err := r.f.Updates(func(txn *fox.Txn) error { body(txn); return nil }); err != nil {
+		ok = false
+	}
+	e.ret = clock.Add(1)
+	e.ok = ok
+	e.vs = []ov{{qobj(s.i, 0), nv}, {qobj(s.i, 1), nv}}
+	s.ver = nv
+	*s.out = append(*s.out, e)
+}
+
+func (s *fscen) readTxnAcrossCommit(idx int) {
+	r := s.r
+	mode := idx % 3
+	other := s.rnd.Bool()
+	names := [3]string{"View", "Txn(false)", "Txn(false) and its Snapshot()"}
+	s.script = s.script[:0]
+	e := rec{tid: s.tidRd, kind: 'R', what: "read transaction " + names[mode] + " across a commit: Has Route Reverse Lookup Iter.All Iter.Reverse Iter.Routes Iter.Prefix Len"}
+	inner := func(rt *fox.Txn) {
+		k := s.ver
+		why := "the version published when the read transaction started; a read transaction works on the ONE tree it loaded"
+		s.step("thread %d: %s opened while /q/%d/a and /q/%d/b are at version %d", s.tidRd, names[mode], s.i, s.i, k)
+		vs0, len0, tog0 := txnViews(rt, s.i, s.rw)
+		e.vs = append(e.vs, s.judge("before the commit", vs0, [2]uint64{k, k}, why)...)
+		if other {
+			ch := make(chan struct{})
+			go func() { defer close(ch); s.commitAB() }()
+			<-ch
+		} else {
+			s.commitAB()
+		}
+		s.step("thread %d (%s): a write transaction committed version %d of both routes and returned", s.tid, map[bool]string{true: "another goroutine", false: "same goroutine"}[other], s.ver)
+		views := []*fox.Txn{rt}
+		if mode == 2 {
+			views = append(views, rt.Snapshot())
+		}
+		for vi, t := range views {
+			what := "the still open read transaction, after the commit"
+			if vi == 1 {
+				what = "Snapshot() of the still open read transaction, after the commit"
+			}
+			vs1, len1, tog1 := txnViews(t, s.i, s.rw)
+			e.vs = append(e.vs, s.judge(what, vs1, [2]uint64{k, k}, why)...)
+			if len1 != len0 || tog1 != tog0 {
+				s.fail("%s: Len() = %d and Has(GET %s) = %v, before the commit %d and %v", what, len1, qpath(s.i, 3), tog1, len0, tog0)
+			}
+		}
+	}
+	e.call = clock.Add(1)
+	if mode == 0 {
+		_ = r.f.View(func(rt *fox.Txn) error { inner(rt); return nil })
+	} else {
+		rt := r.f.Txn(false)
+		inner(rt)
+		if s.rnd.Bool() {
+			rt.Abort()
+		} else {
+			rt.Commit()
+		}
+	}
+	e.ret = clock.Add(1)
+	*s.outRd = append(*s.outRd, e)
+	s.publishedRead("read of the published state after the read transaction ended", s.ver, int64(s.cv), "the last committed version")
+}
+
+var finaliseNames = [4]string{"Abort()", "Commit()", "Commit() then Abort()", "nothing (left open)"}
+
+// returns true when the round must not be continued by this writer (a violation is established)
+func (s *fscen) snapshotOfWriteTxn(idx int) (stop bool) {
+	r := s.r
+	fin := idx % 4
+	commit := (idx%4+idx/4)%2 == 0
+	managed := s.rnd.Bool()
+	w2managed := s.rnd.Bool()
+	n := len(*s.out)
+	tag := s.ver + 1
+	if !commit {
+		tag = poison + uint64(s.tid)<<20 + uint64(n)
+	}
+	s.script = s.script[:0]
+	open := "Txn(true)"
+	if managed {
+		open = "Updates(fn)"
+	}
+	s.step("thread %d: %s while a, b are at version %d and c at version %d", s.tid, open, s.ver, s.cv)
+	_ = os.WriteFile(scenarioFile, []byte(fmt.Sprintf("round seed=%d, scenario writer thread %d (second writer: thread %d, reader: thread %d), routes /q/%d/{a,b,c}: %s; Update a -> tag %d; Snapshot(); reads and a refused write through the snapshot; snapshot.%s; read of the published state; a second writer (Update c) is started and watched for %s; Update b; %s; ...",
+		r.seed, s.tid, s.tidW2, s.tidRd, s.i, open, tag, finaliseNames[fin], r.waitF, map[bool]string{true: "Commit", false: "Abort"}[commit])), 0o644)
+	e := rec{tid: s.tid, kind: 'A', what: "write transaction with a finalised Snapshot()"}
+	ok := true
+	done := make(chan rec, 1)
+	var w2 *rec
+	leak, lockBroken := false, false
+	body := func(txn *fox.Txn) {
+		_, err := txn.Update("GET", qpath(s.i, 0), handler(tag), ann(tag))
+		ok = ok && err == nil
+		s.step("Update GET %s -> version tag %d (uncommitted)", qpath(s.i, 0), tag)
+		snap := txn.Snapshot()
+		s.step("snap := Snapshot()")
+		if snap == nil {
+			s.fail("Snapshot() of an open write transaction returned nil")
+			return
+		}
+		vs, _, _ := txnViews(snap, s.i, s.rw)
+		s.judge("the snapshot of the open write transaction", vs, [2]uint64{tag, s.ver}, "a snapshot shows the state of the transaction at the time it was taken, uncommitted writes included")
+		// the snapshot is a read-only transaction
+		bogus := poison + uint64(s.tid)<<20 + 1<<19 + uint64(n)
+		if _, err := snap.Update("GET", qpath(s.i, 1), handler(bogus), ann(bogus)); !errors.Is(err, fox.ErrReadOnlyTxn) {
+			s.fail("snap.Update(GET %s) returned %v, not ErrReadOnlyTxn: the snapshot of a write transaction accepts writes", qpath(s.i, 1), err)
+		}
+		switch fin {
+		case 0:
+			snap.Abort()
+		case 1:
+			snap.Commit()
+		case 2:
+			snap.Commit()
+			snap.Abort()
+		}
+		s.step("snap: %s, the write transaction of thread %d is still OPEN", finaliseNames[fin], s.tid)
+		// (b) nothing of the open transaction is published
+		s.publishedRead("read of the published state while the write transaction is open", s.ver, int64(s.cv),
+			"the last COMMITTED version; the open transaction's write of "+strconv.FormatUint(tag, 10)+" is not committed")
+		// (a) a second writer must wait for the open transaction
+		cn := s.cv + 1
+		go func() {
+			w := rec{tid: s.tidW2, kind: 'W', what: "second writer Update c"}
+			defer func() {
+				if p := recover(); p != nil {
+					r.fail("second writer (thread %d) panicked: %v", s.tidW2, p)
+					w.ret = clock.Add(1)
+					done <- w
+				}
+			}()
+			var err error
+			w.call = clock.Add(1)
+			if w2managed {
+				err = r.f.Updates(func(t2 *fox.Txn) error {
+					_, err := t2.Update("GET", qpath(s.i, 2), handler(cn), ann(cn))
+					return err
+				})
+			} else {
+				_, err = r.f.Update("GET", qpath(s.i, 2), handler(cn), ann(cn))
+			}
+			w.ret = clock.Add(1)
+			w.ok = err == nil
+			w.vs = []ov{{qobj(s.i, 2), cn}}
+			done <- w
+		}()
+		s.step("thread %d: second writer started: Update GET %s -> version %d", s.tidW2, qpath(s.i, 2), cn)
+		select {
+		case w := <-done:
+			w2 = &w
+			lockBroken = true
+			r.lockBroken.Store(true)
+			s.fail("the second writer (thread %d) COMPLETED its Update (ok=%v) while the write transaction of thread %d was still open (watched for %s): write transactions are no longer serialised from lock acquisition to Commit/Abort", s.tidW2, w.ok, s.tid, r.waitF)
+		case <-time.After(r.waitF):
+		}
+		_, err = txn.Update("GET", qpath(s.i, 1), handler(tag), ann(tag))
+		ok = ok && err == nil
+		s.step("thread %d: Update GET %s -> version tag %d", s.tid, qpath(s.i, 1), tag)
+		if commit { // /q/i/t exists exactly when the version is odd
+			if tag%2 == 1 {
+				_, err = txn.Handle("GET", qpath(s.i, 3), handler(tag), ann(tag))
+			} else {
+				_, err = txn.Delete("GET", qpath(s.i, 3))
+			}
+			ok = ok && err == nil
+		}
+		if w2 != nil {
+			// The writer mutex was released under the open transaction, so ending the transaction would unlock an
+			// unlocked mutex (fatal runtime error, the history would be lost). A sacrificial write transaction,
+			// never ended, takes the mutex first: the parent can then end and the consequence becomes observable.
+			acq := make(chan struct{})
+			go func() { r.f.Txn(true); close(acq) }()
+			select {
+			case <-acq:
+			case <-time.After(2 * time.Second):
+				leak = true
+			}
+		}
+	}
+	e.call = clock.Add(1)
+	if managed {
+		err := r.f.Updates(func(txn *fox.Txn) error {
+			body(txn)
+			if commit {
+				return nil
+			}
+			return errAbort
+		})
+		if commit != (err == nil) {
+			ok = false
+		}
+	} else {
+		txn := r.f.Txn(true)
+		body(txn)
+		switch {
+		case leak: // never ended: its Unlock would be fatal
+		case commit:
+			txn.Commit()
+		default:
+			txn.Abort()
+		}
+	}
+	e.ret = clock.Add(1)
+	s.step("thread %d: the write transaction ended by %s", s.tid, map[bool]string{true: "Commit", false: "Abort"}[commit])
+	if commit && !leak {
+		s.ver = tag
+		e.kind, e.ok = 'W', ok
+		e.vs = []ov{{qobj(s.i, 0), tag}, {qobj(s.i, 1), tag}}
+	}
+	*s.out = append(*s.out, e)
+	if w2 == nil {
+		select {
+		case w := <-done:
+			w2 = &w
+		case <-time.After(20 * time.Second):
+			s.fail("the second writer (thread %d) is still blocked 20 s after the write transaction ended (writer mutex never released)", s.tidW2)
+			return true
+		}
+	}
+	*s.outW2 = append(*s.outW2, *w2)
+	if w2.ok {
+		s.cv++
+	} else {
+		s.fail("the second writer's Update of a registered route failed")
+	}
+	s.step("thread %d: second writer returned (version %d of c committed)", s.tidW2, s.cv)
+	// (c) every committed write of both writers is there
+	s.publishedRead("read of the published state after both writers returned", s.ver, int64(s.cv), "the version the last COMMITTED transaction of the scenario writer wrote (an aborted one leaves no trace)")
+	os.Remove(scenarioFile)
+	return lockBroken
+}
+
+func (r *round) writerF(tid, i, tidW2, tidRd int, rnd *hx.Rand, out, outW2, outRd *[]rec) {
+	req0 := httptest.NewRequest("GET", "/ver", nil)
+	s := &fscen{r: r, i: i, tid: tid, tidW2: tidW2, tidRd: tidRd, out: out, outW2: outW2, outRd: outRd, rnd: rnd,
+		rw: fox.NewTestContextOnly(httptest.NewRecorder(), req0).Writer()}
+	for n := 0; n < r.opsF; n++ {
+		idx := n / 2
+		if !r.scripted {
+			idx = rnd.Intn(24)
+		}
+		if n%2 == 0 {
+			if s.snapshotOfWriteTxn(idx) {
+				return
+			}
+		} else {
+			s.readTxnAcrossCommit(idx)
+		}
+	}
+}
+
 type target struct {
 	method, pattern, path string
 	obj                   int
@@ -735,6 +1211,11 @@ func (r *round) targets() []target {
 			ts = append(ts, target{"GET", fpath(i, j), fpath(i, j), fobj(i, j), true})
 		}
 	}
+	for i := 0; i < r.nF; i++ {
+		for j := 0; j < 3; j++ {
+			ts = append(ts, target{"GET", qpath(i, j), qpath(i, j), qobj(i, j), true})
+		}
+	}
 	if r.nD > 0 {
 		for mi, m := range truncMethods {
 			for j := 0; j < truncN; j++ { // listed twice: these are the routes a misplaced truncate hides
@@ -748,7 +1229,7 @@ func (r *round) targets() []target {
 // everything one loaded tree shows
 func (r *round) snapshotOf(all func(func(string, *fox.Route) bool)) []ov {
 	var vs []ov
-	nx, nf, nt := 0, 0, 0
+	nx, nf, nt, nq := 0, 0, 0, 0
 	var verbs []string
 	all(func(m string, rte *fox.Route) bool {
 		v, _ := verOf(rte)
@@ -773,6 +1254,14 @@ func (r *round) snapshotOf(all func(func(string, *fox.Route) bool)) []ov {
 			vs = append(vs, ov{objC + i, v})
 		case strings.HasPrefix(p, "/m/"):
 			verbs = append(verbs, m)
+		case strings.HasPrefix(p, "/q/"):
+			i, _ := strconv.Atoi(p[3:strings.LastIndex(p, "/")])
+			for j := 0; j < 3; j++ {
+				if p == qpath(i, j) {
+					nq++
+					vs = append(vs, ov{qobj(i, j), v})
+				}
+			}
 		case strings.HasPrefix(p, "/t/"):
 			j, _ := strconv.Atoi(p[3:])
 			for mi := range truncMethods {
@@ -810,6 +1299,9 @@ func (r *round) snapshotOf(all func(func(string, *fox.Route) bool)) []ov {
 	vs = append(vs, mv...)
 	if nt != 2*truncN*r.nD {
 		r.fail("snapshot shows %d TRACE/PURGE routes instead of %d (an uncommitted, aborted or partial Truncate is visible)", nt, 2*truncN*r.nD)
+	}
+	if nq != 3*r.nF {
+		r.fail("snapshot shows %d of the routes /q/*/{a,b,c} instead of %d", nq, 3*r.nF)
 	}
 	if nf != famSize*r.nC {
 		r.fail("snapshot shows %d family routes instead of %d (a partially applied transaction)", nf, famSize*r.nC)
@@ -1123,7 +1615,7 @@ func (r *round) reader(tid int, rnd *hx.Rand, out *[]rec, stop *atomic.Bool) {
 			e.what = "Iter"
 			it := r.f.Iter()
 			e.vs = r.snapshotOf(it.All())
-			if l := r.f.Len(); l < r.K+2+r.nB+famSize*r.nC+2*len(paramRoutes)+4+2*truncN*r.nD+r.nE {
+			if l := r.f.Len(); l < r.K+2+r.nB+famSize*r.nC+2*len(paramRoutes)+4+2*truncN*r.nD+r.nE+3*r.nF {
 				r.fail("Len() = %d", l)
 			}
 		default:
@@ -1135,10 +1627,27 @@ func (r *round) reader(tid int, rnd *hx.Rand, out *[]rec, stop *atomic.Bool) {
 					if o > 0 {
 						p = dpath(o)
 					}
-					if v, ok := verOf(txn.Route("GET", p)); ok {
+					// every lookup entry point of the read transaction answers from the ONE tree it loaded
+					var rte *fox.Route
+					how := "Route"
+					switch rnd.Intn(3) {
+					case 0:
+						rte = txn.Route("GET", p)
+					case 1:
+						how = "Reverse"
+						rte, _ = txn.Reverse("GET", "", p)
+					default:
+						how = "Lookup"
+						var cc fox.ContextCloser
+						rte, cc, _ = txn.Lookup(rw, httptest.NewRequest("GET", p, nil))
+						if cc != nil {
+							cc.Close()
+						}
+					}
+					if v, ok := verOf(rte); ok {
 						e.vs = append(e.vs, ov{o, v})
 					} else {
-						r.fail("View: %s missing", p)
+						r.fail("View: Txn.%s GET %s found nothing", how, p)
 					}
 				}
 				if rnd.Bool() {
@@ -1167,7 +1676,8 @@ func (r *round) run(rnd *hx.Rand) (events []event, dur time.Duration) {
 	r.setup()
 	old := runtime.GOMAXPROCS(r.procs)
 	defer runtime.GOMAXPROCS(old)
-	nth := r.nA + r.nB + r.nC + r.nD + r.nE + r.nR
+	nth0 := r.nA + r.nB + r.nC + r.nD + r.nE + r.nR
+	nth := nth0 + 3*r.nF // scenario writer i: its own thread, its second writer, its reader
 	recs := make([][]rec, nth)
 	rnds := make([]*hx.Rand, nth)
 	for i := range rnds {
@@ -1212,6 +1722,10 @@ func (r *round) run(rnd *hx.Rand) (events []event, dur time.Duration) {
 	for i := 0; i < r.nR; i++ {
 		tid := r.nA + r.nB + r.nC + r.nD + r.nE + i
 		guard(tid, &wgR, func() { r.reader(tid, rnds[tid], &recs[tid], &stop) })
+	}
+	for i := 0; i < r.nF; i++ {
+		tid, k := nth0+3*i, i
+		guard(tid, &wgW, func() { r.writerF(tid, k, tid+1, tid+2, rnds[tid], &recs[tid], &recs[tid+1], &recs[tid+2]) })
 	}
 	t0 := time.Now()
 	close(start)
@@ -1285,6 +1799,13 @@ func symptom(events []event, G int) string {
 		if e.r.kind == 'W' && !e.r.ok {
 			return fmt.Sprintf("thread %d %s: an operation of a committed write returned an unexpected result", e.r.tid, e.r.what)
 		}
+		one := map[int]uint64{}
+		for _, p := range e.r.vs {
+			if v, ok := one[p.o]; ok && v != p.v {
+				return fmt.Sprintf("thread %d %s: ONE operation (one loaded tree) reported versions %d and %d of object %d: one of its entry points loaded the tree again", e.r.tid, e.r.what, v, p.v, p.o)
+			}
+			one[p.o] = p.v
+		}
 		gv := map[int]uint64{}
 		for _, p := range e.r.vs {
 			g := -1
@@ -1340,11 +1861,13 @@ func main() {
 			"Definition viol := Eval vm_compute in spec_violations cases.\nPrint viol.\n" +
 			"Definition oof := Eval vm_compute in fuel_outs cases.\nPrint oof.\n",
 	}
-	st := &hx.Stats{Rule: "a case is the complete call/return history (global atomic clock) of one stress round on a fresh router: nA multi-route transaction writers (Updates commit / error / panic after a prefix, Txn Commit / Abort), nB single-operation writers (Update/UpdateRoute, Handle/HandleRoute/Delete on keys they own, failing Handle), nR readers (ServeHTTP, Lookup, Reverse, Route/Has, Iter+Len, View) under a varied GOMAXPROCS; binary built with -race and run with GORACE=halt_on_error=1; non-trivial = the round has >= 2 writers and at least one read overlapped a committed write in real time; distinct = distinct rounds (each has its own schedule)"}
+	st := &hx.Stats{Rule: "a case is the complete call/return history (global atomic clock) of one stress round on a fresh router: nA multi-route transaction writers (Updates commit / error / panic after a prefix, Txn Commit / Abort), nB single-operation writers (Update/UpdateRoute, Handle/HandleRoute/Delete on keys they own, failing Handle), nR readers (ServeHTTP, Lookup, Reverse, Route/Has, Iter+Len, View with Route/Reverse/Lookup), nF scenario writers (a write transaction whose Snapshot() is read through every entry point and finalised while the transaction is open, a second writer that must wait, reads of the published state; a read transaction View / Txn(false) / its Snapshot() read through every entry point before and after another transaction commits, recorded as ONE read) under a varied GOMAXPROCS; binary built with -race and run with GORACE=halt_on_error=1; non-trivial = the round has >= 2 writers and at least one read overlapped a committed write in real time; distinct = distinct rounds (each has its own schedule)"}
 	t0 := time.Now()
 	nontrivial := 0
 	totalOps, totalOverlap, totalRun := 0, 0, 0
 	rounds, emitted := 0, 0
+	scen, scenOps := 0, 0
+	suspEmitted := 0
 	eventBudget := hx.Atoi(args["events"], 40000)
 	if tier == "thorough" && args["events"] == "" {
 		eventBudget = 900000
@@ -1379,12 +1902,32 @@ func main() {
 		if k%3 == 1 && r.nC == 0 {
 			r.nC = 2
 		}
+		// scenario writers: scripted snapshot / read-transaction scenarios (writerF). The first two rounds take every
+		// scenario kind in turn (round 0 with no other writer, round 1 among other writers); afterwards one round
+		// in eight has a scenario writer drawing its scenarios, with a short watch so that the stress keeps its pace.
+		r.opsF, r.waitF = rr.Range(2, 4), 15*time.Millisecond
+		switch {
+		case k == 0:
+			r.scripted, r.nF, r.opsF, r.waitF = true, 1, 16, 80*time.Millisecond
+			r.K, r.nA, r.nB, r.nC, r.nD, r.nE, r.nR, r.procs, r.opsR = 1, 0, 0, 0, 0, 0, 2, 4, 400000
+		case k == 1:
+			r.scripted, r.nF, r.opsF, r.waitF = true, 1, 16, 80*time.Millisecond
+			r.nA, r.nB, r.nR, r.procs, r.opsR = 1, 1, 3, 8, 400000
+		case k%8 == 5:
+			r.nF = 1
+		}
+		if tier == "thorough" {
+			r.opsF *= 2
+		}
 		// every read runs (under the race detector); at most ~readBudget of them are recorded in the
 		// history given to Coq (dropping reads from a history keeps it a valid history); writes always are
 		readBudget := 400
 		r.recEvery = (r.opsR*r.nR + readBudget - 1) / readBudget
 		if r.recEvery < 1 {
 			r.recEvery = 1
+		}
+		if r.scripted {
+			r.recEvery = 400
 		}
 		events, dur := r.run(rr)
 		// overlap: a read whose [call, ret] contains the return of a committed write
@@ -1409,24 +1952,39 @@ func main() {
 		overlap = len(hit)
 		totalOverlap += overlap
 		totalOps += len(events) / 2
-		totalRun += r.nA*r.opsA + r.nB*r.opsB + r.nC*r.opsC + r.nD*r.opsD + r.nE*r.opsE + r.nR*r.opsR
-		nontriv := r.nA+r.nB+r.nC+r.nD+r.nE >= 2 && overlap > 0
-		cfg := fmt.Sprintf("round %d seed=%d K=%d writersA=%d writersB=%d writersC=%d truncateWriter=%d verbWriters=%d readers=%d GOMAXPROCS=%d ops=%d reads-overlapping-a-commit=%d dur=%s",
-			k, r.seed, r.K, r.nA, r.nB, r.nC, r.nD, r.nE, r.nR, r.procs, len(events)/2, overlap, dur.Round(time.Millisecond))
+		totalRun += r.nA*r.opsA + r.nB*r.opsB + r.nC*r.opsC + r.nD*r.opsD + r.nE*r.opsE + r.nR*r.opsR + 4*r.nF*r.opsF
+		nontriv := r.nA+r.nB+r.nC+r.nD+r.nE+2*r.nF >= 2 && overlap > 0
+		cfg := fmt.Sprintf("round %d seed=%d K=%d writersA=%d writersB=%d writersC=%d truncateWriter=%d verbWriters=%d scenarioWriters=%d readers=%d GOMAXPROCS=%d ops=%d reads-overlapping-a-commit=%d dur=%s",
+			k, r.seed, r.K, r.nA, r.nB, r.nC, r.nD, r.nE, r.nF, r.nR, r.procs, len(events)/2, overlap, dur.Round(time.Millisecond))
 		human := cfg
 		if msg, _ := r.badMsg.Load().(string); msg != "" {
+			r.msgMu.Lock()
 			human += " FAILURE: " + msg
+			for _, m := range r.msgs {
+				if m != msg {
+					human += " | ALSO: " + m
+				}
+			}
+			r.msgMu.Unlock()
 		}
 		if s := symptom(events, r.G()); s != "" {
 			human += " SYMPTOM: " + s
 		}
 		rounds++
+		if r.nF > 0 {
+			scen++
+			scenOps += 4 * r.nF * r.opsF
+		}
 		// Every round runs under the race detector and gets the informal pre-check; the histories handed to
 		// the verified checker are budgeted (coqc elaborates ~1500 events/s): rounds with any symptom always,
 		// the others evenly over the run until the event budget is used.
 		suspicious := r.bad.Load() || strings.Contains(human, "SYMPTOM")
 		due := float64(emitted) < float64(eventBudget)*float64(time.Since(t0))/float64(budget)
-		if !suspicious && !due {
+		// (a change that makes every round fail would otherwise hand hundreds of histories to coqc)
+		if suspicious {
+			suspEmitted++
+		}
+		if !(suspicious && suspEmitted <= 20) && !due && !r.scripted {
 			continue
 		}
 		emitted += len(events)
@@ -1440,6 +1998,7 @@ func main() {
 		st.Count(fmt.Sprintf("family-writers:%d", r.nC))
 		st.Count(fmt.Sprintf("truncate-writer:%d", r.nD))
 		st.Count(fmt.Sprintf("verb-writers:%d", r.nE))
+		st.Count(fmt.Sprintf("scenario-writers:%d", r.nF))
 		st.Count(fmt.Sprintf("readers:%02d", r.nR))
 		st.Count(fmt.Sprintf("txn-routes:%d", r.K+3))
 		if len(st.Samples) < 5 {
@@ -1448,11 +2007,20 @@ func main() {
 		if r.bad.Load() && strings.Contains(human, "deadlock") {
 			break // goroutines of this round still hold resources; stop stressing
 		}
+		if r.lockBroken.Load() {
+			// a second writer completed inside an open write transaction: Router.mu is unlocked once too often, and
+			// stressing on can only end in the runtime's fatal 'unlock of unlocked mutex', which would lose the
+			// histories recorded so far. They are the failing input; stop here.
+			fmt.Fprintln(os.Stderr, "c05: the writer mutex no longer serialises write transactions; stress stopped after round", k)
+			break
+		}
 	}
 	st.Evaluations = cs.Len()
 	st.DistinctNontrivial = nontrivial
 	st.Extra = map[string]any{
 		"rounds_executed":               rounds,
+		"scenario_rounds":               scen,
+		"scenario_operations":           scenOps,
 		"rounds_checked_by_coq":         cs.Len(),
 		"events_checked_by_coq":         emitted,
 		"operations_recorded":           totalOps,
@@ -1463,6 +2031,7 @@ func main() {
 		"sampled_not_proved":            "data-race freedom under the Go memory model and the schedules exercised are runtime behaviour: sampled by this stress run, not proved",
 		"num_cpu":                       runtime.NumCPU(),
 	}
+	os.Remove(scenarioFile)
 	hx.Fatal(cs.Write(out, shards))
 	hx.Fatal(st.Write(out))
 	fmt.Printf("c05: %d rounds, %d operations recorded, written to %s\n", cs.Len(), totalOps, out)
